@@ -1,4 +1,5 @@
 (* model: merge *)
+(* include: writerprint *)
 (* model side of harness bin `conc` (see harness/src/conc.rs for the formats): the programs
    of the threads, executed by the sequential writer in the lock order the harness observed *)
 
@@ -30,3 +31,33 @@ let run_case line =
     let dg = List.filter_map (fun a -> if a.a_out = WOk then Some (hex a.a_bytes) else None) s.lg in
     Printf.sprintf "T:%s|D:%s|L:%d" (String.concat ";" per_thread) (String.concat ";" dg) left
   | _ -> failwith ("bad conc case: " ^ line)
+
+
+(* the same CM case as a Gallina equation (kernel cross-check of the extracted merge + writer) *)
+let coq_header =
+  "Require Import Cadence.Base.Prelude Cadence.Model.Writer Cadence.Model.Merge.\n" ^
+  "Definition kc (r : list (nat * op) * list ores * st) := (map fst (fst (fst r)), snd (fst r), " ^
+  "map (fun a => (a_op a, a_bytes a, a_out a)) (lg (snd r))).\n"
+
+let coq_case line =
+  match tokens line with
+  | ["CM"; cap; queue; order; progs] when String.length line < 1200 && (cap = "d" || int_of_string cap <= 600) ->
+    let ps = List.map parse_ops (String.split_on_char '/' progs) in
+    let sched = List.map (fun t -> nat_of_int (int_of_string t)) (split_on ',' order) in
+    let nops = List.fold_left (fun a p -> a + List.length p) 0 ps in
+    let script = if queue = "u" then [] else
+      List.init (int_of_string queue) (fun _ -> WOk) @ List.init (3 * nops + 3) (fun _ -> WErr N0) in
+    let c = if cap = "d" then None else Some (nat_of_int (int_of_string cap)) in
+    let ((l, rs), s) = conc_sink c script ps sched in
+    let g_prog p = if p = [] then "(@nil op)" else g_list g_op p in
+    let lhs = Printf.sprintf "kc (conc_sink %s %s %s %s)" (g_option g_nat c)
+        (if script = [] then "(@nil outcome)" else g_list g_outcome script)
+        (if ps = [] then "(@nil (list op))" else g_list g_prog ps)
+        (if sched = [] then "(@nil nat)" else g_list g_nat sched) in
+    let rhs = Printf.sprintf "(%s, %s, %s)"
+        (if l = [] then "(@nil nat)" else g_list (fun (t, _) -> g_nat t) l)
+        (if rs = [] then "(@nil ores)" else g_list g_ores rs)
+        (if s.lg = [] then "(@nil (nat * list N * outcome))"
+         else g_list (fun a -> "(" ^ g_nat a.a_op ^ ", " ^ g_str a.a_bytes ^ ", " ^ g_outcome a.a_out ^ ")") s.lg) in
+    Some (lhs ^ " = " ^ rhs)
+  | _ -> None
